@@ -27,7 +27,9 @@ of the name -- instead of ``{pkg}``.  It is the identity for one-character names
 inside ``facet`` (facet_collection is documented as, and is, a sequence of inserts), where it needs
 the order in which the source yields its packages.  In a state produced by M' the two indexes are
 no longer inverse, and the "restrict one index, re-derive the other" reading above is what carries
-such a state through later derivations.
+such a state through later derivations.  The same reading carries the states that documented
+sharing produces: after an insert into a filter_tags view (or into its source) the other one shows
+the new name in a shared package set but not in its forward index (props/c20.py, after_insert).
 """
 import re
 
